@@ -634,6 +634,22 @@ func (g *vGen) Next() *vTxObs {
 	st := g.step(kind)
 	signer := st.Signer
 	note := kind
+	// sometimes two messages of the same signer travel in one transaction
+	// (all-or-nothing execution)
+	if g.r.Chance(1, 15) {
+		for tries := 0; tries < 6; tries++ {
+			k2 := vKinds[g.r.Pick(ws)]
+			if k2 == kind {
+				continue // two messages of one kind could emit identical events; keep segments distinguishable
+			}
+			st2 := g.step(k2)
+			if st2.Signer == st.Signer {
+				st.Msgs = append(st.Msgs, st2.Msgs...)
+				note += "+" + k2
+				break
+			}
+		}
+	}
 	if g.r.Chance(g.WrongSigner[0], g.WrongSigner[1]) {
 		signer = g.otherThan(st.Signer)
 		if g.r.Chance(1, 3) {
